@@ -13,7 +13,6 @@ Checked clauses (selected by the obligation name, all of them when unknown):
   collect  collect_trajectories: next_value[e*T+t] == V(successor observation of environment e at step t)
   mrq      mrq_loss max_abs_td_error == |q - (R_n + D_n q_next trs)/rs| and post-terminal data is ignored
 """
-import itertools
 import os
 import sys
 
@@ -232,31 +231,37 @@ def ppo_advantages(E_, T_, obs, rew, term, nv):
     from rl_blox.blox.function_approximator.policy_head import SoftmaxPolicy
 
     seen = {}
-    real = ppo.compute_gae
+    real = ppo.ppo_loss
 
-    def spy(*a, **k):
-        out = real(*a, **k)
-        seen["values"] = np.asarray(a[1])
-        seen["adv"] = np.asarray(out.advantages)
-        seen["ret"] = np.asarray(out.returns)
-        return out
+    def spy(actor, critic, logp, observation, action, advs, returns, *a, **k):
+        # the tensors handed to the loss are what the property speaks about
+        seen["adv"] = np.asarray(advs)
+        seen["ret"] = np.asarray(returns)
+        return real(actor, critic, logp, observation, action, advs, returns, *a, **k)
 
     D = obs.shape[1]
     actor = SoftmaxPolicy(MLP(D, 2, [4], "relu", nnx.Rngs(0)))
     critic = MLP(D, 1, [4], "relu", nnx.Rngs(1))
     oa = nnx.Optimizer(actor, optax.adam(1e-3), wrt=nnx.Param)
     oc = nnx.Optimizer(critic, optax.adam(1e-3), wrt=nnx.Param)
-    ppo.compute_gae = spy
+    seen["values"] = np.asarray(critic(jnp.asarray(obs, jnp.float32))).reshape(-1)  # before the optimizer step
+    ppo.ppo_loss = spy
     try:
         with jax.disable_jit():
             try:
-                ppo.update_ppo(actor, critic, oa, oc, jnp.asarray(obs, jnp.float32), jnp.zeros(E_ * T_, dtype=int), jnp.asarray(rew, jnp.float32),
-                               jnp.asarray(term, jnp.float32), jnp.asarray(nv, jnp.float32), 1)
+                import inspect
+
+                args = [actor, critic, oa, oc, jnp.asarray(obs, jnp.float32), jnp.zeros(E_ * T_, dtype=int), jnp.asarray(rew, jnp.float32),
+                        jnp.asarray(term, jnp.float32), jnp.asarray(nv, jnp.float32), 1]
+                fn = getattr(ppo.update_ppo, "__wrapped__", ppo.update_ppo)
+                if "n_envs" in inspect.signature(fn).parameters:
+                    args.append(E_)  # as train_ppo calls it: envs.num_envs
+                ppo.update_ppo(*args)
             except Exception:
                 if "adv" not in seen:
                     raise
     finally:
-        ppo.compute_gae = real
+        ppo.ppo_loss = real
     return seen
 
 
@@ -285,7 +290,7 @@ def check_ppo(model):
             if not close(seen["adv"][sl], A):
                 return dict(function="update_ppo (advantages passed to the loss)", envs=E_, steps=T_, env=e, reward=rew.tolist(), terminated=term.tolist(),
                             next_value=nv.tolist(), value=V.tolist(), got_env=seen["adv"][sl].tolist(), expected_env=A.tolist(),
-                            note="the single reverse scan over the env-major flattening continues from environment e+1's first advantage")
+                            note="advantages handed to ppo_loss differ from environment e's own GAE")
     return None
 
 
@@ -338,7 +343,7 @@ def check_collect(model):
                 exp[e * T_ + t] = (70.0 + 7 * e + t) if e in finish.get(t, []) else [1.0 + t, 101.0 + t][e]
         if not close(nv, exp):
             return dict(function="ppo.collect_trajectories", finished_envs_per_step=finish, got_next_value=nv.tolist(), expected_next_value=exp.tolist(),
-                        note="V = identity; obs.at[i] is indexed by the ordinal among finished episodes instead of the environment index")
+                        note="V = identity; a finished environment must be bootstrapped from its OWN final observation")
     return None
 
 
